@@ -58,18 +58,81 @@ impl Module for CustomMod {
     }
 }
 
-pub type PApp = App<BankKeeper, MockApi, MockStorage, CustomMod, WasmKeeper<PMsg, PQuery>, StakeKeeper, DistributionKeeper, IbcFailingModule, GovFailingModule, StargateFailing>;
+/// The chain's address codec, selectable per history: cosmwasm_std's MockApi or one of the crate's own bech32 codecs
+/// (which accept and normalise alternative spellings of an address).
+pub enum FlexApi {
+    Std(MockApi),
+    Bech32(cw_multi_test::MockApiBech32),
+    Bech32m(cw_multi_test::MockApiBech32m),
+}
+
+impl FlexApi {
+    pub fn of(kind: ApiKind) -> FlexApi {
+        match kind {
+            ApiKind::Std => FlexApi::Std(MockApi::default()),
+            ApiKind::Bech32 => FlexApi::Bech32(cw_multi_test::MockApiBech32::new(crate::model::chain::PREFIX)),
+            ApiKind::Bech32m => FlexApi::Bech32m(cw_multi_test::MockApiBech32m::new(crate::model::chain::PREFIX)),
+        }
+    }
+    pub fn addr_make(&self, name: &str) -> Addr {
+        match self {
+            FlexApi::Std(a) => a.addr_make(name),
+            FlexApi::Bech32(a) => a.addr_make(name),
+            FlexApi::Bech32m(a) => a.addr_make(name),
+        }
+    }
+    fn inner(&self) -> &dyn cosmwasm_std::Api {
+        match self {
+            FlexApi::Std(a) => a,
+            FlexApi::Bech32(a) => a,
+            FlexApi::Bech32m(a) => a,
+        }
+    }
+}
+
+impl cosmwasm_std::Api for FlexApi {
+    fn addr_validate(&self, human: &str) -> cosmwasm_std::StdResult<Addr> {
+        self.inner().addr_validate(human)
+    }
+    fn addr_canonicalize(&self, human: &str) -> cosmwasm_std::StdResult<cosmwasm_std::CanonicalAddr> {
+        self.inner().addr_canonicalize(human)
+    }
+    fn addr_humanize(&self, canonical: &cosmwasm_std::CanonicalAddr) -> cosmwasm_std::StdResult<Addr> {
+        self.inner().addr_humanize(canonical)
+    }
+    fn secp256k1_verify(&self, h: &[u8], s: &[u8], k: &[u8]) -> Result<bool, cosmwasm_std::VerificationError> {
+        self.inner().secp256k1_verify(h, s, k)
+    }
+    fn secp256k1_recover_pubkey(&self, h: &[u8], s: &[u8], r: u8) -> Result<Vec<u8>, cosmwasm_std::RecoverPubkeyError> {
+        self.inner().secp256k1_recover_pubkey(h, s, r)
+    }
+    fn ed25519_verify(&self, m: &[u8], s: &[u8], k: &[u8]) -> Result<bool, cosmwasm_std::VerificationError> {
+        self.inner().ed25519_verify(m, s, k)
+    }
+    fn ed25519_batch_verify(&self, m: &[&[u8]], s: &[&[u8]], k: &[&[u8]]) -> Result<bool, cosmwasm_std::VerificationError> {
+        self.inner().ed25519_batch_verify(m, s, k)
+    }
+    fn debug(&self, message: &str) {
+        self.inner().debug(message)
+    }
+}
+
+pub type PApp = App<BankKeeper, FlexApi, MockStorage, CustomMod, WasmKeeper<PMsg, PQuery>, StakeKeeper, DistributionKeeper, IbcFailingModule, GovFailingModule, StargateFailing>;
 
 pub fn new_app() -> PApp {
+    new_app_with(ApiKind::Std)
+}
+
+pub fn new_app_with(kind: ApiKind) -> PApp {
     let b: cw_multi_test::BasicAppBuilder<PMsg, PQuery> = AppBuilder::new_custom();
-    b.with_custom(CustomMod).build(|_, _, _| {})
+    b.with_custom(CustomMod).with_api(FlexApi::of(kind)).build(|_, _, _| {})
 }
 
 /// An instance of the same type but with another address prefix and another starting block.
 pub fn new_foreign_app(prefix: &'static str) -> PApp {
     let b: cw_multi_test::BasicAppBuilder<PMsg, PQuery> = AppBuilder::new_custom();
     b.with_custom(CustomMod)
-        .with_api(MockApi::default().with_prefix(prefix))
+        .with_api(FlexApi::Std(MockApi::default().with_prefix(prefix)))
         .with_block(BlockInfo { height: 987_654, time: Timestamp::from_seconds(1_111_111_111), chain_id: format!("{}-foreign-1", prefix) })
         .build(|_, _, _| {})
 }
@@ -80,6 +143,8 @@ pub fn new_foreign_app(prefix: &'static str) -> PApp {
 pub enum CodeKind {
     Puppet { code_tag: u32, checksum: Option<String> },
     Lifted,
+    /// assembled by ContractWrapper::new with only the listed optional entry points
+    Partial { reply: bool, sudo: bool, migrate: bool },
 }
 
 #[derive(Clone, Debug, Serialize, Deserialize, PartialEq)]
@@ -104,6 +169,9 @@ pub enum Top {
 #[derive(Clone, Debug, Serialize, Deserialize)]
 pub struct Case {
     pub ops: Vec<Top>,
+    /// the address codec the chain is built with
+    #[serde(default)]
+    pub api: ApiKind,
 }
 
 /// A discrepancy: the properties it refutes, a stable signature, and a description.
@@ -138,8 +206,13 @@ impl World {
     }
 
     pub fn new() -> World {
-        let app = new_app();
-        let model = ChainM::new(block_tuple(&app.block_info()));
+        World::with_api(ApiKind::Std)
+    }
+
+    pub fn with_api(kind: ApiKind) -> World {
+        let app = new_app_with(kind);
+        let mut model = ChainM::new(block_tuple(&app.block_info()));
+        model.api = kind;
         let users = (0..3).map(|i| app.api().addr_make(&format!("user{}", i)).to_string()).collect();
         let _ = take_trace();
         World { app, model, users, transcript: None }
@@ -150,6 +223,7 @@ pub fn make_code(kind: &CodeKind) -> Box<dyn cw_multi_test::Contract<PMsg, PQuer
     match kind {
         CodeKind::Puppet { code_tag, checksum } => Box::new(Puppet { code_tag: *code_tag, checksum: checksum.as_ref().map(|h| Checksum::from_hex(h).unwrap()) }),
         CodeKind::Lifted => lifted_puppet(),
+        CodeKind::Partial { reply, sudo, migrate } => partial_puppet(*reply, *sudo, *migrate),
     }
 }
 
@@ -160,6 +234,39 @@ pub struct RawWasm {
     pub registry: BTreeMap<String, (u64, String, Option<String>, String, u64)>,
     pub data: BTreeMap<String, BTreeMap<Vec<u8>, Vec<u8>>>,
     pub foreign: Vec<Vec<u8>>,
+}
+
+/// Balance and smart queries through App against a raw dump of the committed state; the first difference.
+pub fn app_queries_vs_committed(app: &PApp, committed: &rawstate::Raw, rep: &mut Report) -> Option<String> {
+    let ledger = rawstate::bank_ledger(committed).ok()?;
+    let wasm = decode_wasm(committed).ok()?;
+    let mut accounts: Vec<String> = ledger.keys().cloned().chain(wasm.registry.keys().cloned()).collect();
+    accounts.sort();
+    accounts.dedup();
+    for u in &accounts {
+        rep.bump("e1/failed_tx/app_balance_queries");
+        let want: Vec<(String, u128)> = ledger.get(u).map(|m| m.iter().filter(|(_, v)| **v > 0).map(|(k, v)| (k.clone(), *v)).collect()).unwrap_or_default();
+        #[allow(deprecated)]
+        let got: Vec<(String, u128)> = match catch(|| app.wrap().query_all_balances(u.clone())) {
+            Ok(Ok(cs)) => cs.into_iter().map(|c| (c.denom, c.amount.u128())).collect(),
+            other => return Some(format!("all-balances query for {}: {:?}", u, other.map(|r| r.map(|_| ())))),
+        };
+        if got != want {
+            return Some(format!("all-balances query for {} answers {:?}, committed {:?}", u, got, want));
+        }
+    }
+    for addr in wasm.registry.keys() {
+        rep.bump("e1/failed_tx/app_smart_queries");
+        let got: Result<Result<(u32, Vec<(Binary, Binary)>), _>, _> = catch(|| app.wrap().query_wasm_smart(addr.clone(), &PuppetQuery::Dump {}));
+        if let Ok(Ok((_, dump))) = got {
+            let dump: Vec<(Vec<u8>, Vec<u8>)> = dump.into_iter().map(|(k, v)| (k.to_vec(), v.to_vec())).collect();
+            let want: Vec<(Vec<u8>, Vec<u8>)> = wasm.data.get(addr).map(|m| m.iter().map(|(k, v)| (k.clone(), v.clone())).collect()).unwrap_or_default();
+            if dump != want {
+                return Some(format!("smart query of {} shows {:?} beyond the committed {} entries", addr, dump.iter().filter(|e| !want.contains(e)).map(|(k, v)| format!("{}={}", rawstate::show(k), rawstate::show(v))).collect::<Vec<_>>(), want.len()));
+            }
+        }
+    }
+    None
 }
 
 pub fn decode_wasm(raw: &rawstate::Raw) -> Result<RawWasm, String> {
@@ -321,6 +428,7 @@ fn why_props(w: &Why) -> Vec<&'static str> {
         Why::Overdraft | Why::NoPositiveAmount => vec!["C05", "C09"],
         Why::DuplicateAddress | Why::EmptyLabel | Why::NoSuchCode | Why::BadSalt => vec!["C11"],
         Why::NotAdmin => vec!["C12"],
+        Why::NoEntryPoint => vec!["C12", "C03"],
         Why::UnknownContract | Why::InvalidAddress => vec!["C11"],
         Why::ContractError | Why::CustomFailed => vec![],
     }
@@ -519,10 +627,11 @@ impl World {
         match op {
             Top::StoreCode { kind, creator, id } => {
                 let code = make_code(kind);
-                let model_creator = creator.clone().unwrap_or_else(|| self.app.api().addr_make("creator").to_string());
-                let (code_tag, lifted, explicit_checksum) = match kind {
-                    CodeKind::Puppet { code_tag, checksum } => (*code_tag, false, checksum.as_ref().map(|h| unhex(h))),
-                    CodeKind::Lifted => (LIFTED_TAG, true, None),
+                let model_creator = creator.clone().unwrap_or_else(|| MockApi::default().addr_make("creator").to_string());
+                let (code_tag, lifted, explicit_checksum, entry_points) = match kind {
+                    CodeKind::Puppet { code_tag, checksum } => (*code_tag, false, checksum.as_ref().map(|h| unhex(h)), (true, true, true)),
+                    CodeKind::Lifted => (LIFTED_TAG, true, None, (true, true, true)),
+                    CodeKind::Partial { reply, sudo, migrate } => (partial_tag(*reply, *sudo, *migrate), false, None, (*reply, *sudo, *migrate)),
                 };
                 let expected: Result<u64, ()> = match id {
                     None => Ok(self.model.next_code_id()),
@@ -546,7 +655,7 @@ impl World {
                             discs.push(Disc { props: vec!["C11"], sig: "code-id-differs".into(), detail: format!("{:?}: got id {}, expected {}", op, g, e) });
                         }
                         let checksum = explicit_checksum.unwrap_or_else(|| default_checksum(g));
-                        self.model.codes.insert(g, CodeM { creator: model_creator, checksum, code_tag, lifted });
+                        self.model.codes.insert(g, CodeM { creator: model_creator, checksum, code_tag, lifted, entry_points });
                     }
                     (Ok(Err(_)), Err(())) => {}
                     (Ok(Ok(g)), Err(())) => discs.push(Disc { props: vec!["C11"], sig: "invalid-code-id-accepted".into(), detail: format!("{:?}: accepted as {}", op, g) }),
@@ -764,6 +873,10 @@ impl World {
                     rep.add("e1/atomicity/bytes_compared", before.iter().map(|(k, v)| k.len() + v.len()).sum::<usize>() as u64);
                     if after != before {
                         discs.push(Disc { props: vec!["C01"], sig: format!("failed-{}-left-state-changes", kind), detail: format!("{:?}: {:?}", short_op(op), rawstate::diff(&before, &after)) });
+                        // what App queries show now: the committed state is still the one before the failed call
+                        if let Some(detail) = app_queries_vs_committed(&self.app, &before, rep) {
+                            discs.push(Disc { props: vec!["C10"], sig: format!("app-query-observes-effects-of-failed-{}", kind), detail: format!("{:?}: {}", short_op(op), detail) });
+                        }
                     }
                 }
                 // I4 footprint: a wasm/bank transaction changes nothing outside the bank and wasm namespaces
@@ -892,7 +1005,7 @@ pub fn first_line(s: &str) -> String {
 pub fn short_op(op: &Top) -> String {
     let s = format!("{:?}", op);
     if s.len() > 400 {
-        format!("{}…({} chars)", &s[..400], s.len())
+        format!("{}…({} chars)", s.chars().take(400).collect::<String>(), s.len())
     } else {
         s
     }
